@@ -8,6 +8,17 @@ use ethnum::U256;
 #[cfg(feature = "wasm")]
 use orca_whirlpools_macros::wasm_expose;
 
+/// Shift left by 64 bits, reporting an overflow when set bits would be shifted out.
+/// `U256::checked_shl` only fails for shifts of 256 bits or more and silently drops the
+/// high bits otherwise, whereas the program rejects such inputs with an overflow error.
+pub(crate) fn checked_shl_64(value: U256) -> Option<U256> {
+    if (value >> 192) != U256::MIN {
+        None
+    } else {
+        value.checked_shl(64)
+    }
+}
+
 /// Calculate the amount A delta between two sqrt_prices
 ///
 /// # Parameters
@@ -28,11 +39,12 @@ pub fn try_get_amount_delta_a(
     let (sqrt_price_lower, sqrt_price_upper) =
         order_prices(sqrt_price_1.into(), sqrt_price_2.into());
     let sqrt_price_diff = sqrt_price_upper - sqrt_price_lower;
-    let numerator: U256 = <U256>::from(liquidity)
-        .checked_mul(sqrt_price_diff.into())
-        .ok_or(ARITHMETIC_OVERFLOW)?
-        .checked_shl(64)
-        .ok_or(ARITHMETIC_OVERFLOW)?;
+    let numerator: U256 = checked_shl_64(
+        <U256>::from(liquidity)
+            .checked_mul(sqrt_price_diff.into())
+            .ok_or(ARITHMETIC_OVERFLOW)?,
+    )
+    .ok_or(ARITHMETIC_OVERFLOW)?;
 
     let denominator: U256 = <U256>::from(sqrt_price_lower)
         .checked_mul(sqrt_price_upper.into())
@@ -109,11 +121,12 @@ pub fn try_get_next_sqrt_price_from_a(
     let p = <U256>::from(current_sqrt_price)
         .checked_mul(amount.into())
         .ok_or(ARITHMETIC_OVERFLOW)?;
-    let numerator = <U256>::from(current_liquidity)
-        .checked_mul(current_sqrt_price.into())
-        .ok_or(ARITHMETIC_OVERFLOW)?
-        .checked_shl(64)
-        .ok_or(ARITHMETIC_OVERFLOW)?;
+    let numerator = checked_shl_64(
+        <U256>::from(current_liquidity)
+            .checked_mul(current_sqrt_price.into())
+            .ok_or(ARITHMETIC_OVERFLOW)?,
+    )
+    .ok_or(ARITHMETIC_OVERFLOW)?;
 
     let current_liquidity_shifted = <U256>::from(current_liquidity)
         .checked_shl(64)
